@@ -15,6 +15,7 @@ from .loader import ClassInfo, FuncInfo, Program, walk_shallow
 
 Origins = FrozenSet[str]
 EMPTY: Origins = frozenset()
+IMPRECISE_SPREAD = "~*-spread of a sequence whose elements are not told apart"
 
 
 class TaintSpec:
@@ -337,7 +338,11 @@ class TaintAnalysis:
                             o = o | self.expr(fn, x, env, self_cls, depth)
                         args.append((None, o))
                 else:
-                    spread = spread | self.expr(fn, a.value, env, self_cls, depth)  # unknown length: reaches every later parameter
+                    sp_ = self.expr(fn, a.value, env, self_cls, depth)  # unknown length: reaches every later parameter
+                    if sp_:
+                        # which element carries the taint is not known: findings that rest on it are not positive findings
+                        sp_ = sp_ | frozenset([IMPRECISE_SPREAD])
+                    spread = spread | sp_
                     break
             else:
                 args.append((a, self.expr(fn, a, env, self_cls, depth)))
